@@ -18,8 +18,11 @@ package main
 
 import (
 	"fmt"
+	"go/ast"
+	"go/token"
 	"go/types"
 	"sort"
+	"strconv"
 	"strings"
 
 	"golang.org/x/tools/go/ssa"
@@ -35,6 +38,30 @@ type FrameClause struct {
 }
 
 func parseFrameClause(kind, pkg string, props []string, rest string) (*FrameClause, error) {
+	if kind == "globalinit" {
+		j := strings.Index(rest, "=")
+		if j < 0 {
+			return nil, fmt.Errorf("bad globalinit clause %q", rest)
+		}
+		fc := &FrameClause{Kind: kind, Target: strings.TrimSpace(rest[:j]), Props: props, Pkg: pkg, Text: kind + " " + rest}
+		for _, f := range strings.Fields(rest[j+1:]) {
+			sv, err := strconv.Unquote(f)
+			if err != nil {
+				return nil, fmt.Errorf("globalinit: %q is not a string literal", f)
+			}
+			fc.Allowed = append(fc.Allowed, sv)
+		}
+		return fc, nil
+	}
+	if kind == "dominated" {
+		j := strings.Index(rest, ":")
+		if j < 0 {
+			return nil, fmt.Errorf("bad dominated clause %q", rest)
+		}
+		fc := &FrameClause{Kind: kind, Target: strings.TrimSpace(rest[:j]), Props: props, Pkg: pkg, Text: kind + " " + rest}
+		fc.Allowed = strings.Fields(rest[j+1:])
+		return fc, nil
+	}
 	i := strings.Index(rest, ":")
 	if i < 0 {
 		return nil, fmt.Errorf("bad %s clause %q (want TARGET: FUNC...)", kind, rest)
@@ -171,6 +198,12 @@ func callersOf(ld *Loader, target string) ([]string, bool) {
 
 // frameObligation decides one clause and wraps the verdict as an obligation.
 func frameObligation(ld *Loader, fc *FrameClause) *Obl {
+	switch fc.Kind {
+	case "globalinit":
+		return globalInitObligation(ld, fc)
+	case "dominated":
+		return dominatedObligation(ld, fc)
+	}
 	vc := newVC("frame:" + fc.Target)
 	var found []string
 	ok := true
@@ -228,6 +261,211 @@ func frameObligation(ld *Loader, fc *FrameClause) *Obl {
 		o.Model = fmt.Sprintf("not in the allowed set: %s %s (found: %s)", strings.Join(extra, " "), detail, strings.Join(found, " "))
 		o.FrameDetail = o.Model
 	}
+	vc.obls = append(vc.obls, o)
+	return o
+}
+
+// globalinit[Cxx] pkg.Var = "a" "b" ...   the package-level string-slice variable
+// is initialised with exactly these literals (read from the typed AST of the
+// declaration) and no function of the module writes the variable, takes its
+// address, or stores into / re-slices / hands out the slice it holds.
+//
+// dominated[Cxx] FUNC: GUARD => TARGET...   in FUNC every call of a TARGET is
+// dominated by the true branch of a conditional on the result of a call of
+// GUARD (e.g. the archive work runs only after RateLimiter.Allow() said yes).
+
+func globalInitObligation(ld *Loader, fc *FrameClause) *Obl {
+	vc := newVC("frame:" + fc.Target)
+	ok, detail := true, ""
+	i := strings.LastIndex(fc.Target, ".")
+	pkgName, varName := fc.Target[:i], fc.Target[i+1:]
+	var lits []string
+	found := false
+	for _, f := range ld.files {
+		if f.Name.Name != pkgName {
+			continue
+		}
+		for _, d := range f.Decls {
+			gd, isGen := d.(*ast.GenDecl)
+			if !isGen || gd.Tok != token.VAR {
+				continue
+			}
+			for _, sp := range gd.Specs {
+				vs := sp.(*ast.ValueSpec)
+				for k, n := range vs.Names {
+					if n.Name != varName || k >= len(vs.Values) {
+						continue
+					}
+					found = true
+					cl, isLit := vs.Values[k].(*ast.CompositeLit)
+					if !isLit {
+						ok, detail = false, "initialiser is not a composite literal"
+						continue
+					}
+					for _, e := range cl.Elts {
+						bl, isB := e.(*ast.BasicLit)
+						if !isB || bl.Kind != token.STRING {
+							ok, detail = false, "initialiser element is not a string literal"
+							continue
+						}
+						sv, _ := strconv.Unquote(bl.Value)
+						lits = append(lits, sv)
+					}
+				}
+			}
+		}
+	}
+	if !found {
+		ok, detail = false, "no such variable (contract out of date)"
+	}
+	if ok && strings.Join(lits, "\x00") != strings.Join(fc.Allowed, "\x00") {
+		ok, detail = false, fmt.Sprintf("initialiser is %q", lits)
+	}
+	// writers of the global
+	var writers []string
+	for name, fn := range ld.funcs {
+		if fn.Synthetic != "" || fn.Name() == "init" {
+			continue
+		}
+		for _, b := range fn.Blocks {
+			for _, in := range b.Instrs {
+				for _, op := range in.Operands(nil) {
+					g, isG := (*op).(*ssa.Global)
+					if !isG || g.Name() != varName || g.Pkg.Pkg.Name() != pkgName {
+						continue
+					}
+					// only plain loads of the variable whose value is then only
+					// ranged over, measured or indexed for reading are allowed
+					ld1, isLoad := in.(*ssa.UnOp)
+					if !isLoad || !globalValueReadOnly(ld1) {
+						writers = append(writers, name)
+					}
+				}
+			}
+		}
+	}
+	if len(writers) > 0 {
+		sort.Strings(writers)
+		ok = false
+		detail += " written or aliased in: " + strings.Join(writers, " ")
+	}
+	goal := "true"
+	if !ok {
+		goal = "false"
+	}
+	o := &Obl{Name: fmt.Sprintf("%s/frame(globalinit) «%s = %s»#1", fc.Pkg, fc.Target, strings.Join(fc.Allowed, " ")), Kind: "frame-globalinit", Func: fc.Pkg + ".frame:" + fc.Target,
+		Guard: "true", Goal: goal, Prefix: 0, vc: vc, Src: fc.Text, Props: fc.Props, FrameDetail: strings.TrimSpace(detail)}
+	vc.obls = append(vc.obls, o)
+	return o
+}
+
+func globalValueReadOnly(v ssa.Value) bool {
+	refs := v.Referrers()
+	if refs == nil {
+		return true
+	}
+	for _, r := range *refs {
+		switch u := r.(type) {
+		case *ssa.DebugRef, *ssa.Range:
+		case *ssa.Call:
+			if b, ok := u.Call.Value.(*ssa.Builtin); !ok || (b.Name() != "len" && b.Name() != "cap") {
+				return false
+			}
+		case *ssa.IndexAddr:
+			if !isLoadOnly(u, map[ssa.Value]bool{}) {
+				return false
+			}
+		case *ssa.Index:
+		default:
+			return false
+		}
+	}
+	return true
+}
+
+func dominatedObligation(ld *Loader, fc *FrameClause) *Obl {
+	vc := newVC("frame:" + fc.Target)
+	ok, detail := true, ""
+	fn := ld.funcs[fc.Target]
+	guard := ""
+	var targets []string
+	for i, a := range fc.Allowed {
+		if a == "=>" {
+			targets = fc.Allowed[i+1:]
+			break
+		}
+		guard = a
+	}
+	if fn == nil {
+		ok, detail = false, "no such function (contract out of date)"
+	} else {
+		// blocks reached only through the true branch of `if GUARD()` / the false branch of `if !GUARD()`
+		var okBlocks []*ssa.BasicBlock
+		for _, b := range fn.Blocks {
+			for _, in := range b.Instrs {
+				call, isCall := in.(*ssa.Call)
+				if !isCall || !strings.HasSuffix(calleeLabel(call.Common()), guard) {
+					continue
+				}
+				for _, r := range *call.Referrers() {
+					var cond ssa.Value = call
+					neg := false
+					if u, isU := r.(*ssa.UnOp); isU && u.Op == token.NOT {
+						cond, neg = u, true
+					} else if _, isIf := r.(*ssa.If); !isIf {
+						continue
+					}
+					for _, rr := range *cond.Referrers() {
+						if iff, isIf := rr.(*ssa.If); isIf {
+							succ := iff.Block().Succs[0]
+							if neg {
+								succ = iff.Block().Succs[1]
+							}
+							okBlocks = append(okBlocks, succ)
+						}
+					}
+				}
+			}
+		}
+		if len(okBlocks) == 0 {
+			ok, detail = false, "no conditional on a call of "+guard
+		}
+		seen := 0
+		for _, b := range fn.Blocks {
+			for _, in := range b.Instrs {
+				call, isCall := in.(ssa.CallInstruction)
+				if !isCall {
+					continue
+				}
+				lbl := calleeLabel(call.Common())
+				for _, t := range targets {
+					if !strings.HasSuffix(lbl, t) {
+						continue
+					}
+					seen++
+					dom := false
+					for _, g := range okBlocks {
+						if g.Dominates(b) {
+							dom = true
+						}
+					}
+					if !dom {
+						ok = false
+						detail += " call of " + t + " not dominated by an admitted " + guard + ";"
+					}
+				}
+			}
+		}
+		if seen == 0 {
+			ok, detail = false, "none of the target calls occurs (contract out of date)"
+		}
+	}
+	goal := "true"
+	if !ok {
+		goal = "false"
+	}
+	o := &Obl{Name: fmt.Sprintf("%s/frame(dominated) «%s: %s»#1", fc.Pkg, fc.Target, strings.Join(fc.Allowed, " ")), Kind: "frame-dominated", Func: fc.Pkg + ".frame:" + fc.Target,
+		Guard: "true", Goal: goal, Prefix: 0, vc: vc, Src: fc.Text, Props: fc.Props, FrameDetail: strings.TrimSpace(detail)}
 	vc.obls = append(vc.obls, o)
 	return o
 }
